@@ -59,7 +59,10 @@ def load(pid):
 
 def _worker(args):
     pid, group, tier = args
+    import mc.stats
     from mc.stats import Stats
+
+    mc.stats.CURRENT_PID = pid
 
     mod = load(pid)
     try:
@@ -74,6 +77,9 @@ def explore(pid, tier, seed, nproc=None):
     from mc.stats import Stats
 
     mod = load(pid)
+    import mc.stats
+
+    mc.stats.CURRENT_PID = pid
     if hasattr(mod, "custom_explore"):
         return mod, mod.custom_explore(tier, seed)
     groups = list(mod.groups(tier, seed))
